@@ -15,7 +15,7 @@
 -/
 import Driver.Proto
 import FcModel.Spec.C15
-namespace Fc.Drv
+namespace Fc.Drv.C15
 open Fc
 
 def tstatusName : TStatus → String
@@ -146,4 +146,7 @@ def handleC15 (op : String) : Option (P String) :=
   | "c15merge" => some opMerge
   | _ => none
 
-end Fc.Drv
+end Fc.Drv.C15
+
+/-- re-export for Driver/Main.lean -/
+def Fc.Drv.handleC15 := Fc.Drv.C15.handleC15
